@@ -158,7 +158,7 @@ class Universe:
         if k == "retrieve":
             return retrieve_object(self.pid())
         if k == "hex":
-            return get_hex_digest(self.pid(), self.alg_spelling()[1])
+            return get_hex_digest(self.pid(), self.alg_spelling(getattr(self, "hex_pool", None))[1])
         if k == "smeta":
             return store_metadata(self.pid(), self.data_ok(), self.fmt())
         if k == "rmeta":
@@ -240,6 +240,37 @@ class Universe:
         if k == "retrieve":
             return retrieve_object(self.bad_sarg())
         return delete_object(self.bad_sarg())
+
+    def lifecycle_patterns(self):
+        """short scripted histories that every sequential check runs before its random ones: the life cycles in
+        which state kept *outside* the store directory (memos, caches, counters on the instance) goes stale"""
+        rng = self.rng
+        p, q = rng.sample(self.pids[:3] if len(self.pids) >= 3 else self.pids + ["zz"], 2)
+        if len(self.toks) >= 2:
+            A, B = rng.sample(self.toks, 2)
+        else:
+            A = B = self.toks[0]
+        a1 = self.alg_spelling(getattr(self, "hex_pool", None))[1]
+        f = rng.choice([x for x in self.formats if isinstance(x, str) and x.strip()] or ["f1"])
+        cidA = self.cid_of(A)
+        out = []
+        # a pid deleted and stored again with other content while another pid keeps the old object alive
+        out.append([store_object(p, self.data_ok(A)), store_object(q, self.data_ok(A)), get_hex_digest(p, a1),
+                    retrieve_object(p), delete_object(p), store_object(p, self.data_ok(B)), get_hex_digest(p, a1),
+                    retrieve_object(p), get_hex_digest(q, a1), retrieve_object(q)])
+        # last reference deleted, same content stored again
+        out.append([store_object(p, self.data_ok(A)), get_hex_digest(p, a1), delete_object(p), store_object(q, self.data_ok(A)),
+                    retrieve_object(q), get_hex_digest(q, a1), store_object(p, self.data_ok(A)), retrieve_object(p)])
+        # document overwritten, deleted, stored again, then the object deleted
+        out.append([store_object(p, self.data_ok(A)), store_metadata(p, self.data_ok(A), f), retrieve_metadata(p, f),
+                    store_metadata(p, self.data_ok(B), f), retrieve_metadata(p, f), delete_metadata(p, f),
+                    retrieve_metadata(p, f), store_metadata(p, self.data_ok(A), f), retrieve_metadata(p, f),
+                    store_metadata(q, self.data_ok(B), f), delete_object(p), retrieve_metadata(p, f), retrieve_metadata(q, f)])
+        # stepwise path: data only, tag, delete, and again
+        out.append([store_object(None, self.data_ok(A)), tag_object(p, cidA), retrieve_object(p), get_hex_digest(p, a1),
+                    delete_object(p), retrieve_object(p), store_object(None, self.data_ok(A)), tag_object(q, cidA),
+                    tag_object(p, cidA), retrieve_object(p), delete_object(q), retrieve_object(p)])
+        return out
 
     def history(self, n, weights=None):
         return [self.rand_call(weights) for _ in range(n)]
